@@ -429,3 +429,36 @@ def add_operand_users(net, operand_lists, rng):
             continue
         g[lbl] = (t, tuple(ops))
     return refsem.Net(list(net.inputs), list(net.outputs), g)
+
+
+def under_construction(c, rng, ctx):
+    """Make c a circuit that is still being built: one to three earlier generator calls (any arithmetic family, small
+    operands taken from c's inputs or from earlier results) whose result bits nobody has consumed or marked as outputs yet.
+    The call under test then sees those results as ordinary pre-existing gates.  Runs with the monitors suspended - the
+    earlier calls are context, not what is judged here."""
+    from cirbo.synthesis.generation import arithmetics as ar
+    results = []
+    with monitor.suspended():
+        for _ in range(rng.randint(1, 3)):
+            pool = list(c.inputs) + [l for r in results for l in r]
+            if not pool:
+                return results
+            a = [rng.choice(pool) for _ in range(rng.randint(1, 3))]
+            b = [rng.choice(pool) for _ in range(rng.randint(1, 3))]
+            kind = rng.choice(['add_mul', 'add_mul_dadda', 'add_mul_wallace', 'add_mul_alter', 'add_sum_two_numbers',
+                               'add_sub_two_numbers', 'add_square', 'add_sum_n_bits'])
+            try:
+                if kind in ('add_square', 'add_sum_n_bits'):
+                    r = getattr(ar, kind)(c, a)
+                else:
+                    r = getattr(ar, kind)(c, a, b)
+            except Exception as e:
+                if ctx is not None:
+                    ctx.count('under_construction_setup_failed:' + type(e).__name__)
+                continue
+            results.append(list(r))
+            if ctx is not None:
+                ctx.count('under_construction:' + kind)
+    if ctx is not None and results:
+        ctx.count('circuit_under_construction')
+    return results
